@@ -846,7 +846,18 @@ func (gen *Generator) GenerateCallBySymbol(sym *SexpSymbol, args []Sexp, orig Se
 
 	oldtail := gen.Tail
 	gen.Tail = false
-	if oldtail && sym.name == gen.funcname {
+	selfTail := oldtail && sym.name == gen.funcname
+	if selfTail {
+		// the jump back to instruction 0 binds exactly the formals: a call with
+		// the wrong number of arguments is left to the ordinary call path,
+		// which reports the arity error.
+		if fn := gen.LookupKnownFunction(sym); fn != nil && !fn.user {
+			if (fn.varargs && len(args) < fn.nargs) || (!fn.varargs && len(args) != fn.nargs) {
+				selfTail = false
+			}
+		}
+	}
+	if selfTail {
 		err := gen.GenerateCallArgsForFunction(gen.LookupKnownFunction(sym), args)
 		if err != nil {
 			return err
